@@ -184,6 +184,13 @@ func init() {
 			return nil
 		},
 		"vxRegister": extNop,
+		"vxRaceDetect": func(fr *frame, a []value) value {
+			if fr.i.race == nil {
+				fr.i.race = newRaceState()
+			}
+			fr.i.race.on = a[0].(bool)
+			return nil
+		},
 		"vxWaitUntil": func(fr *frame, a []value) value {
 			i := fr.i
 			f := a[0]
